@@ -21,5 +21,54 @@ _p('C02',
    '(sa/specs/sweeper_signatures.json). Further rules: zero padding and triangularity assertions of the QDelta builders, refresh of k-dependent '
    'coefficients before each fine sweep, reduction payloads of the node-parallel sweepers. Unknown vocabulary gives ANALYSIS-ERROR, not a violation.',
    ['numeric matrix entries (qmat)', 'that solve_system inverts what it should (C12)', 'MultiStep / QDiagonalization / RungeKuttaNystrom algebra (no formula in the statement; listed as uncovered)'])
-for pid in ['C03', 'C06', 'C07', 'C08', 'C09', 'C10', 'C12', 'C13', 'C14', 'C16', 'C18', 'C19', 'C20']:
+_p('C03',
+   'Rules: (R1) Sweeper.compute_residual adds integrate()+u0-u (+tau under its guard), takes abs per node and dispatches on residual_type with a raising else; '
+   '(R2) every other compute_residual implementation that reduces a norm list has the same four-way dispatch; (R3) in IT_CHECK send_full(0), recv_full(0), '
+   'compute_residual(stage=IT_CHECK) dominate one another in this order and the decision loop follows the residual loop, the handler stores nothing into level '
+   'data; (R4) boolean normal form of check_convergence; (R5) writers of status.iter/done/force_continue; (R6) logged fields are the deciding fields.',
+   ['the numeric value of the residual', 'that abs() is a norm (C13)', 'convergence-controller side effects on level data (HotRod discards a sweep by design)'])
+_p('C06',
+   'Rules over run()/restart_block() of the three controllers: definitions reaching the carried value (None | u[0] of the first restarted step | uend of the last step), '
+   'its use as third argument of restart_block and first element of the return; init_step copies through the datatype; block start time on both arms, later slots = '
+   'predecessor + predecessor dt after prepare_next_block; level times from time[p]; all activity tests have the normal form t < Tend - 10*eps; kept steps are '
+   'MS_active[:restart_at]; absolute eps thresholds are reported as the scale-unaware pattern (7 sites = known finding F3).',
+   ['float arithmetic ("smallest N up to rounding")', 'histories of restarts and step-size changes'])
+_p('C07',
+   'The callback grammar start (predict)? (iteration-start (sweep)+ iteration-end)* end is decomposed into local obligations on the CFG of every stage handler '
+   '(handler table read from the switcher dict): emission sites of pre_step/pre_predict/post_predict/pre_iteration/post_iteration/post_step, pre_sweep/post_sweep '
+   'brackets with matching level around every update_nodes, successor stages per handler, a stage write on every normal path for every running step, stage choice '
+   'independent of per-step status outside IT_CHECK, unknown stage raises, done := done and prev_done, all_to_done, handlers use only their parameter, tag tuples '
+   'agree by role, transfers refuse locked levels.',
+   ['termination for all residual sequences', 'exhaustive exploration of convergence patterns (state exploration is another family)'])
+_p('C09',
+   'Table-driven who-may-write rules (restart, dt_new, params.dt, restarts_in_a_row), comparison operator and operands of the retry bound and of the restart test, '
+   'crash condition, accumulation of the restart buffer and its reset at the end of IT_CHECK, counter re-mapping, the step size written to all levels of every step '
+   'from one step, normal form beta*dt*(e_tol/e_est)**(1/order) and its call sites, clamp direction/bound agreement, effective default control orders folded from '
+   'setup() dict merges along the MRO against the required partial order, min/max skeleton of the Tend limit in both flavours.',
+   ['that a run always advances (history property)', 'numeric quality of error estimates', 'MPI flavour cannot be executed (F4 by reading)'])
+_p('C10',
+   'BaseTransfer.restrict/prolong/prolong_f are decided clause by clause on the normalised contributions: spatial restriction of all fine nodes, full row of Rcoll with '
+   'vector index = column (peeled or plain loops, merged as intervals), coarse f re-evaluated before the coarse integral, tau = +restricted fine integral - coarse '
+   'integral, inherited tau restricted and ADDED under its guard, uold/fold datatype copies after the last write, unlock; prolongation of coarse - coarse_old with += '
+   'over the full Pcoll row, f re-evaluated (prolong) or prolonged as a difference (prolong_f); shape rules for the mass and MPI siblings; down/coarse/up order; registry.',
+   ['exactness of Rcoll/Pcoll/space transfers (C11)', 'the multigrid iteration-matrix clause'])
+_p('C12',
+   'Purity clause: for each of the contract methods (eval_f*, solve_system*, solve_jacobian, u_exact, apply_mass_matrix, build_f, boris_solver, ...) of every library '
+   'problem class a flow-sensitive abstract value (fresh / view-of-parameter / alias-of-parameter / attribute-of-self) is propagated through assignments, branches '
+   '(joined) and loops (two passes); subscript/attribute stores, augmented stores into views, .fill()-like methods, out= and receive buffers whose target may reach a '
+   'parameter are violations, also through one level of self.helper(); returned values of eval_f/solve_system* must be fresh.',
+   ['residual of the implicit solve', 'equality of split and unsplit right-hand sides', 'closed-form solutions'])
+_p('C13',
+   'Datatype side: no in-place dunder in any datatype class (positive control embedded), __array_ufunc__ binds and drops out, binary dunders do not store into operands, '
+   'copy constructors allocate and copy, abs reduces with max/norm. Client side: the same alias lattice with level data slots (X.u[i], X.f[i], X.uend, ...) as sources '
+   'over all run-time functions gives the inventory of in-place writes; each must be dominated by an allocating assignment of that slot in the same function or be an '
+   'entry of table B4 (one reason each). Every writer of uend rebinds it; boundaries (StoreUOld, predict) copy.',
+   ['dtype/shape closure of arithmetic on all inputs', 'norm axioms numerically'])
+_p('C14',
+   'Every add_to_stats/increment_stats call of the library hooks carries process, time, level, iter, sweep, type with the roles of the step/level of the callback; '
+   'Hooks.add_to_stats places num_restarts after **kwargs; all base callbacks refresh the restart count and every recording override calls super().<same callback> '
+   'first (hook objects are shared by the steps of a block); _recomputed is written at both ends of the step and read with the same literal; consumed type literals '
+   'are produced; every eval_f of a class with a registered rhs counter ticks it exactly once on every path (CFG must-pass-through and at-most-once).',
+   ['behaviour of filter_stats(recomputed=...) on arbitrary histories'])
+for pid in ['C08', 'C16', 'C18', 'C19', 'C20']:
     _p(pid, 'static rules over the AST/CFG of /repo (see DESIGN.md section 4 for the clause list)', ['behavioural remainder, see DESIGN.md'])
